@@ -317,6 +317,8 @@ CopyEdges(es, src, c) == {[e EXCEPT !.dst = c] : e \in es}
 ImportCopy(c, src) ==
   /\ Editing /\ c \in ImportSlots \ hasOid /\ src \in hasOid \ (dirty \cup added \cup stale) /\ kinds[c] = kinds[src]
   /\ kinds[src] # "py2mod"
+  \* the slot is free: no object in memory still refers to an earlier, disowned copy that lived in it
+  /\ \A n \in Nodes : \A e \in mem[n] : e.dst # c
   /\ LET rec == Overlay(stored, txn.tmp)[src] IN
      /\ rec.p /\ \A e \in rec.e : e.dst = src /\ Format(kinds, e) \in {"oc", "o"} /\ e.holder \in {"direct", "list", "dict", "deep"}
      /\ txn' = [txn EXCEPT !.on = TRUE, !.tmp = [Flushed EXCEPT ![c] = Rec(CopyEdges(rec.e, src, c))],
